@@ -257,4 +257,204 @@ theorem pivot_cells_nonNone (n nx : Nat) (xp : Nat → List Val) (yc : Nat → V
         rw [List.getD_eq_getElem?_getD] at hz hz'
         simp [Agg.apply, hz, hz', hkx, hky]
 
+/-! ### the rows of a table as `(x cells, y, z)` triples; `unpivot` of the table `pivot` builds -/
+
+/-- the cell of column `k` in row `r` (`None` outside the table) -/
+def VTable.cellAt (u : VTable) (k : String) (r : Nat) : Val :=
+  (((u.find? (·.1 == k)).map (·.2)).getD []).getD r (.cell .none)
+
+/-- the rows of `u` as triples: the cells of the `x` columns, the `y` cell, the `z` cell -/
+def uRows (u : VTable) (x : List String) (y z : String) : List (List Val × Val × Val) :=
+  (List.range u.nrows).map fun r => (x.map fun k => u.cellAt k r, u.cellAt y r, u.cellAt z r)
+
+theorem range_flatMap_of_get {α β} (l : List α) (F : Nat → List β) (G : α → List β)
+    (h : ∀ i (hi : i < l.length), F i = G l[i]) : (List.range l.length).flatMap F = l.flatMap G := by
+  rw [List.flatMap_def, List.flatMap_def]
+  congr 1
+  apply List.ext_getElem
+  · simp
+  · intro i h1 h2
+    simp only [List.length_map, List.length_range] at h1
+    simp [h i h1]
+
+theorem map_eq_zipIdx_map {α β} (l : List α) (g : α → β) : l.map g = l.zipIdx.map fun kj => g kj.1 := by
+  conv => lhs; rw [← List.zipIdx_map_fst 0 l]
+  rw [List.map_map]; rfl
+
+theorem keyColsOf_eq (by_ : List String) (gs : List Grp) :
+    keyColsOf by_ gs = by_.zipIdx.map fun c => (c.1, gs.map fun g => tupleGet c.2 g.1) := rfl
+
+/-- `unpivot`, closed form (every `x` column present) -/
+theorem unpivot_closed (p : VTable) (x : List String) (y z : String)
+    (hx : ∀ k ∈ x, (p.find? (·.1 == k)).isSome = true) :
+    p.unpivot x y z = .ok (
+      (x.map fun k => (k, (List.range p.nrows).flatMap fun i =>
+        List.replicate ((p.map (·.1)).filter fun c => !x.contains c).length
+          ((((p.find? (·.1 == k)).map (·.2)).getD []).getD i (.cell .none)))) ++
+      [(y, (List.range p.nrows).flatMap fun _ =>
+          ((p.map (·.1)).filter fun c => !x.contains c).map fun c => Val.cell (.str c)),
+       (z, (List.range p.nrows).flatMap fun i =>
+          ((p.map (·.1)).filter fun c => !x.contains c).map fun c =>
+            (((p.find? (·.1 == c)).map (·.2)).getD []).getD i (.cell .none))]) := by
+  simp only [VTable.unpivot]
+  rw [mapM_ok_of_forall (g := fun k => (k, (List.range p.nrows).flatMap fun i =>
+    List.replicate ((p.map (·.1)).filter fun c => !x.contains c).length
+      ((((p.find? (·.1 == k)).map (·.2)).getD []).getD i (.cell .none))))]
+  · rfl
+  · intro k hk
+    have := hx k hk
+    cases hf : p.find? (·.1 == k) with
+    | none => simp [hf] at this
+    | some c => simp
+
+/-- the triples of a table given by three kinds of columns over one list of "row descriptors" -/
+theorem uRows_of_maps {α} (x : List String) (y z : String) (pairs : List α)
+    (fx : String × Nat → α → Val) (fy fz : α → Val) (hx : x ≠ []) (hyz : (x ++ [y, z]).Nodup) :
+    uRows ((x.zipIdx.map fun kj => (kj.1, pairs.map (fx kj))) ++
+        [(y, pairs.map fy), (z, pairs.map fz)]) x y z =
+      pairs.map fun pq => (x.zipIdx.map fun kj => fx kj pq, fy pq, fz pq) := by
+  generalize hu : ((x.zipIdx.map fun kj => (kj.1, pairs.map (fx kj))) ++
+        [(y, pairs.map fy), (z, pairs.map fz)] : VTable) = u
+  have hnd := List.nodup_append.1 hyz
+  have hxnd : (x.zipIdx.map (·.1)).Nodup := by rw [List.zipIdx_map_fst]; exact hnd.1
+  have hyx : ∀ c ∈ (x.zipIdx.map fun kj => (kj.1, pairs.map (fx kj))), c.1 ≠ y := by
+    intro c hc
+    obtain ⟨kj, hkj, rfl⟩ := List.mem_map.1 hc
+    have : kj.1 ∈ x := by
+      have := List.mem_map_of_mem (f := Prod.fst) hkj
+      rwa [List.zipIdx_map_fst] at this
+    exact hnd.2.2 _ this y (by simp)
+  have hzx : ∀ c ∈ (x.zipIdx.map fun kj => (kj.1, pairs.map (fx kj))), c.1 ≠ z := by
+    intro c hc
+    obtain ⟨kj, hkj, rfl⟩ := List.mem_map.1 hc
+    have : kj.1 ∈ x := by
+      have := List.mem_map_of_mem (f := Prod.fst) hkj
+      rwa [List.zipIdx_map_fst] at this
+    exact hnd.2.2 _ this z (by simp)
+  have hyz' : y ≠ z := by
+    have := hnd.2.1; simp at this; exact this
+  have hnr : VTable.nrows u = pairs.length := by
+    rw [← hu]
+    cases x with
+    | nil => exact absurd rfl hx
+    | cons k0 x' => simp [VTable.nrows, List.zipIdx_cons]
+  have hcx : ∀ kj ∈ x.zipIdx, ∀ r, VTable.cellAt u kj.1 r = (pairs.map (fx kj)).getD r (.cell .none) := by
+    intro kj hkj r
+    have := find_named (·.1) (fun kj => pairs.map (fx kj)) x.zipIdx hxnd kj hkj
+    simp only [VTable.cellAt, ← hu, find_append_left _ _ _ _ this, Option.map_some, Option.getD_some]
+  have hcy : ∀ r, VTable.cellAt u y r = (pairs.map fy).getD r (.cell .none) := by
+    intro r
+    simp only [VTable.cellAt, ← hu, find_append_right _ _ _ hyx]
+    simp
+  have hcz : ∀ r, VTable.cellAt u z r = (pairs.map fz).getD r (.cell .none) := by
+    intro r
+    simp only [VTable.cellAt, ← hu, find_append_right _ _ _ hzx]
+    have : (y == z) = false := by simpa using hyz'
+    simp [this]
+  unfold uRows
+  rw [hnr]
+  apply List.ext_getElem
+  · simp
+  · intro r h1 h2
+    simp only [List.length_map, List.length_range] at h1
+    simp only [List.getElem_map, List.getElem_range, hcy, hcz]
+    rw [map_eq_zipIdx_map x]
+    congr 1
+    · apply List.map_congr_left
+      intro kj hkj
+      rw [hcx kj hkj]
+      simp [List.getD_eq_getElem?_getD, h1]
+    · simp [List.getD_eq_getElem?_getD, h1]
+
+/-- **`unpivot` of a pivot-shaped table**: key columns `x` over the x-groups `xg`, one column
+`lab gy` per y-group holding the cells `C gx gy`.  The result lists, row-major, one row
+`(x cells of gx, label of gy, C gx gy)` per (x-group, y-group). -/
+theorem unpivot_pivotTable (x : List String) (y z : String) (xg ys : List Grp) (lab : Grp → String)
+    (C : Grp → Grp → Val) (hx : x ≠ []) (hnd : (x ++ ys.map lab).Nodup) (hyz : (x ++ [y, z]).Nodup) :
+    ∃ u, VTable.unpivot (keyColsOf x xg ++ ys.map fun gy => (lab gy, xg.map fun gx => C gx gy)) x y z
+        = .ok u ∧
+      uRows u x y z = xg.flatMap fun gx => ys.map fun gy =>
+        (x.zipIdx.map fun kj => tupleGet kj.2 gx.1, Val.cell (.str (lab gy)), C gx gy) := by
+  generalize hP : (keyColsOf x xg ++ ys.map fun gy => (lab gy, xg.map fun gx => C gx gy)) = P
+  have hn := List.nodup_append.1 hnd
+  have hxnd : (x.zipIdx.map (·.1)).Nodup := by rw [List.zipIdx_map_fst]; exact hn.1
+  have hmemx : ∀ kj ∈ x.zipIdx, kj.1 ∈ x := by
+    intro kj hkj
+    have := List.mem_map_of_mem (f := Prod.fst) hkj
+    rwa [List.zipIdx_map_fst] at this
+  have hnames : List.map (·.1) P = x ++ ys.map lab := by
+    rw [← hP, keyColsOf_eq]
+    simp only [List.map_append, List.map_map, Function.comp_def]
+    congr 1
+    exact List.zipIdx_map_fst 0 x
+  have hyc : ((List.map (·.1) P).filter fun c => !x.contains c) = ys.map lab := by
+    rw [hnames, List.filter_append]
+    have h1 : (x.filter fun c => !x.contains c) = [] := by
+      rw [List.filter_eq_nil_iff]; intro a ha; simp [ha]
+    have h2 : ((ys.map lab).filter fun c => !x.contains c) = ys.map lab := by
+      rw [List.filter_eq_self]
+      intro b hb
+      have : b ∉ x := fun hbx => hn.2.2 b hbx b hb rfl
+      simp [this]
+    rw [h1, h2]; rfl
+  have hnr : VTable.nrows P = xg.length := by
+    rw [← hP, keyColsOf_eq]
+    cases x with
+    | nil => exact absurd rfl hx
+    | cons k0 x' => simp [VTable.nrows, List.zipIdx_cons]
+  have hfx : ∀ kj ∈ x.zipIdx,
+      P.find? (·.1 == kj.1) = some (kj.1, xg.map fun g => tupleGet kj.2 g.1) := by
+    intro kj hkj
+    rw [← hP, keyColsOf_eq]
+    exact find_append_left _ _ _ _
+      (find_named (·.1) (fun kj => xg.map fun g => tupleGet kj.2 g.1) x.zipIdx hxnd kj hkj)
+  have hfy : ∀ gy ∈ ys, P.find? (·.1 == lab gy) = some (lab gy, xg.map fun gx => C gx gy) := by
+    intro gy hgy
+    rw [← hP, keyColsOf_eq, find_append_right]
+    · exact find_named lab (fun gy => xg.map fun gx => C gx gy) ys hn.2.1 gy hgy
+    · intro c hc
+      obtain ⟨kj, hkj, rfl⟩ := List.mem_map.1 hc
+      exact hn.2.2 _ (hmemx kj hkj) _ (List.mem_map_of_mem hgy)
+  have hpx : ∀ k ∈ x, (P.find? (·.1 == k)).isSome = true := by
+    intro k hk
+    have hk' : k ∈ x.zipIdx.map (·.1) := by rw [List.zipIdx_map_fst]; exact hk
+    obtain ⟨kj, hkj, rfl⟩ := List.mem_map.1 hk'
+    simp [hfx kj hkj]
+  refine ⟨_, unpivot_closed P x y z hpx, ?_⟩
+  rw [hyc, hnr]
+  have hX : (x.map fun k => (k, (List.range xg.length).flatMap fun i =>
+        List.replicate (ys.map lab).length
+          ((((P.find? (·.1 == k)).map (·.2)).getD []).getD i (.cell .none)))) =
+      x.zipIdx.map fun kj => (kj.1, (xg.flatMap fun gx => ys.map fun gy => (gx, gy)).map
+        fun pq => tupleGet kj.2 pq.1.1) := by
+    rw [map_eq_zipIdx_map x]
+    apply List.map_congr_left
+    intro kj hkj
+    congr 1
+    rw [hfx kj hkj, List.map_flatMap]
+    apply range_flatMap_of_get
+    intro i hi
+    simp [List.getD_eq_getElem?_getD, hi, Function.comp_def, List.map_const']
+  have hY : ((List.range xg.length).flatMap fun _ => (ys.map lab).map fun c => Val.cell (.str c)) =
+      (xg.flatMap fun gx => ys.map fun gy => (gx, gy)).map fun pq => Val.cell (.str (lab pq.2)) := by
+    rw [List.map_flatMap]
+    apply range_flatMap_of_get
+    intro i hi
+    simp [List.map_map, Function.comp_def]
+  have hZ : ((List.range xg.length).flatMap fun i => (ys.map lab).map fun c =>
+        (((P.find? (·.1 == c)).map (·.2)).getD []).getD i (.cell .none)) =
+      (xg.flatMap fun gx => ys.map fun gy => (gx, gy)).map fun pq => C pq.1 pq.2 := by
+    rw [List.map_flatMap]
+    apply range_flatMap_of_get
+    intro i hi
+    rw [List.map_map, List.map_map]
+    apply List.map_congr_left
+    intro gy hgy
+    simp [hfy gy hgy, List.getD_eq_getElem?_getD, hi]
+  rw [hX, hY, hZ, uRows_of_maps x y z _ _ _ _ hx hyz, List.map_flatMap]
+  apply flatMap_congr'
+  intro gx _
+  rw [List.map_map]
+  rfl
+
 end Pyg
